@@ -1,7 +1,8 @@
 #!/bin/bash
-# Runs every check against every confirmed seeded change on a scratch worktree of /repo; writes seeded_raw/matrix.tsv
-# (copied to /tmp/matrix_result.tsv at the end). Start it with `vp run -- tools/seed_matrix.sh`: that runs from a snapshot
-# of the committed /verif, so editing /verif meanwhile does not disturb it. Builds its own tools first.
+# Runs every check against every patch under the given directories (default: seeded_raw seeded_raw2 benign_raw) on a scratch
+# worktree of /repo; writes <dir>/matrix.tsv per directory (and a copy under /tmp/matrix_<dir>.tsv after every row).
+# Start it with `vp run -- tools/seed_matrix.sh [dirs]`: that runs from a snapshot of the committed /verif, so editing
+# /verif meanwhile does not disturb it. Builds its own tools first.
 ROOT=$(cd "$(dirname "$0")/.." && pwd)
 cd "$ROOT" || exit 2
 ./setup.sh > /tmp/matrix_setup.log 2>&1 || { echo "setup failed"; exit 2; }
@@ -9,25 +10,30 @@ WT=/tmp/repo_matrix
 git -C /repo worktree remove --force $WT 2>/dev/null; git -C /repo worktree prune
 git -C /repo worktree add -q --detach $WT HEAD || exit 2
 export VERIF_REPO=$WT
-OUT=$ROOT/seeded_raw/matrix.tsv
-: > $OUT
 PROPS="C01 C02 C03 C04 C05 C06 C07 C08 C09 C10 C11 C12 C13 C14 C16"
-for d in $ROOT/seeded_raw/C*/[12]/; do
-  id=$(basename $(dirname $d))-$(basename $d)
-  git -C $WT checkout -q -- .
-  git -C $WT apply $d/patch.diff || { echo -e "$id\tAPPLY-FAILED" >> $OUT; continue; }
-  row="$id"
-  for p in $PROPS; do
-    ./run check $p > /tmp/matrix_run.log 2>&1; rc=$?
-    row="$row\t$p=$rc"
+DIRS="${@:-seeded_raw seeded_raw2 benign_raw}"
+for D in $DIRS; do
+  OUT=$ROOT/$D/matrix.tsv
+  : > $OUT
+  for d in $(find $ROOT/$D -name patch.diff | sort); do
+    dd=$(dirname $d)
+    id=$(echo ${dd#$ROOT/$D/} | tr '/' '-')
+    git -C $WT reset -q --hard HEAD
+    git -C $WT apply $d || { echo -e "$id\tAPPLY-FAILED" >> $OUT; continue; }
+    row="$id"
+    for p in $PROPS; do
+      ./run check $p > /tmp/matrix_run.log 2>&1; rc=$?
+      row="$row\t$p=$rc"
+      if [ $rc -ne 0 ]; then mkdir -p $ROOT/$D/verdicts; grep -E "^(VIOLATION|UNDECIDED|note)" /tmp/matrix_run.log | cut -c1-300 > $ROOT/$D/verdicts/$id.$p.txt; fi
+    done
+    echo -e "$row" >> $OUT
+    echo -e "$row"
+    cp $OUT /tmp/matrix_$D.tsv
   done
-  echo -e "$row" >> $OUT
-  echo -e "$row"
-  cp $OUT /tmp/matrix_result.tsv
 done
-git -C $WT checkout -q -- .
+git -C $WT reset -q --hard HEAD
 row="unchanged"
 for p in $PROPS; do ./run check $p > /tmp/matrix_run.log 2>&1; row="$row\t$p=$?"; done
-echo -e "$row" >> $OUT; echo -e "$row"
+echo -e "$row" | tee /tmp/matrix_unchanged.tsv
 git -C /repo worktree remove --force $WT
-cp $OUT /tmp/matrix_result.tsv
+mkdir -p /tmp/matrix_verdicts; for D in $DIRS; do [ -d $ROOT/$D/verdicts ] && cp -r $ROOT/$D/verdicts /tmp/matrix_verdicts/$D; done
